@@ -2,9 +2,28 @@
 """Assembles /verif/DESIGN.md from notes/, known findings and seeded records."""
 import json, os, subprocess, glob
 V = os.path.dirname(os.path.dirname(os.path.abspath(__file__)))
+import re
+
+
+def demote(text, pid):
+    """uniform headings in Part II: the note's first heading becomes '### II.Cxx …', every other heading one level below it"""
+    lines = text.split('\n'); first = True; fence = False; res = []
+    for ln in lines:
+        if ln.startswith('```'):
+            fence = not fence
+        m = None if fence else re.match(r'^(#+)\s+(.*)$', ln)
+        if m and first:
+            res.append('### II.%s — %s' % (pid, re.sub(r'^%s\s*[—-]\s*' % pid, '', m.group(2)))); first = False
+        elif m:
+            res.append('#' * min(6, max(4, len(m.group(1)) + 2 if len(m.group(1)) < 3 else len(m.group(1)) + 1)) + ' ' + m.group(2))
+        else:
+            res.append(ln)
+    return '\n'.join(res)
+
+
 out = [open(os.path.join(V, 'notes', '00_asbuilt.md')).read(), '\n---\n\n## Part II — per-property design as built\n']
 for f in sorted(glob.glob(os.path.join(V, 'notes', 'C[0-9][0-9].md'))):
-    out.append('\n' + open(f).read().rstrip() + '\n')
+    out.append('\n' + demote(open(f).read().rstrip(), os.path.basename(f)[:3]) + '\n')
 out.append('\n---\n\n## Part III — findings and seeded changes\n\n### III.1 Genuine defects repaired in /repo (`fix:` commits)\n')
 k = json.load(open(os.path.join(V, 'known_findings.json')))
 for e in k.get('fixed', []):
